@@ -7,6 +7,8 @@ Mirrors, as they are in the tree (after the `fix:` commit recorded in notes/C13.
 * `internal/target/remote/security.go`  : `daneDelivery.discoverTLSA`, `daneDelivery.CheckConn`
 * `framework/dns/dnssec.go`             : `ExtResolver.exchange` (server loop, AD sanitising),
   `CheckCNAMEAD`, `AuthLookupCNAME`, `AuthLookupTLSA`, `isLoopback` (as the flag `Srv.loopback`)
+* `internal/target/remote/connect.go`   : `remoteDelivery.connect` (the STARTTLS / retry ladder that
+  produces the `tls.ConnectionState` handed to `CheckConn`), the DANE part of `attemptMX`
 
 External behaviour is a parameter:
 
@@ -21,6 +23,10 @@ External behaviour is a parameter:
 * `Transport` — which message `dns.Client.ExchangeContext` hands back for one configured server
   (the tree: plain UDP, a truncated answer is returned as it is; `udpOnly`). The resolver theorems
   hold for EVERY transport.
+* `EnvN` — the same primitives with the reference identifier of the X.509 query explicit
+  (`chainVerifyAt name …`, `none` = an empty `DNSName`: crypto/x509 skips the name check);
+* `Attempt` — what the peer does on one connection attempt of `connect` (any function of the TLS
+  configuration the client uses). The connect theorems hold for EVERY sequence of attempts.
 
 Certificates are opaque identities (`Nat`), TLSA association data is an opaque `tag`.
 Go panics (`connState.PeerCertificates[0]` on an empty slice) are the explicit outcome `Res.panic`.
@@ -31,13 +37,17 @@ namespace MaddyVerif.Dane
 /-- `dns.TLSA` as far as `verifyDANE` looks at it. The three numeric fields are `uint8` in Go; the
 model allows any `Nat`. `tag` stands for the association data (`Certificate` hex string), `owner`
 for the owner name of the RR (`Hdr.Name`: `_25._tcp.<mx>`, or whatever name a CNAME'd TLSA RRset
-lives under) as an opaque identity. No function below reads `owner`. -/
+lives under) as an opaque identity, `dlen` for the length in bytes of the association data (32 for a
+SHA-256 digest, 64 for SHA-512, anything for a record edited by hand). No function below reads
+`owner` or `dlen`: which records are usable is decided by usage / selector / matching type alone, and
+no lookup function drops a record because of its data. -/
 structure Rec where
   usage : Nat
   selector : Nat
   mtype : Nat
   tag : Nat
   owner : Nat
+  dlen : Nat
 deriving DecidableEq, Repr
 
 abbrev Cert := Nat
@@ -336,5 +346,141 @@ def resolverDns (T : Transport) (W : List Srv) : Option Dns :=
 def resolverConn (E : Env) (T : Transport) (W : List Srv) (hs : Bool) (chain : List Cert) :
     Option CRes :=
   (resolverDns T W).map (fun D => connDecision E true D hs chain)
+
+/-! ## `connect.go`: the connection state `CheckConn` is handed
+
+`remoteDelivery.connect` tries STARTTLS with X.509 verification, on a verification error once more
+with `InsecureSkipVerify` (DANE may still authenticate the peer), on any other TLS error in
+plaintext. `attemptMX` hands the `tls.ConnectionState` of the connection that is left to every
+policy's `CheckConn`; `verifyDANE` takes the reference identifier of its DANE-TA path validation from
+that state (`DNSName: connState.ServerName`). -/
+
+/-- host names, as opaque identities -/
+abbrev Name := Nat
+
+/-- the primitives with the reference identifier of the X.509 query explicit:
+`chainVerifyAt name roots inters leaf` = `leaf.Verify(VerifyOptions{DNSName: name, Roots, Intermediates,
+CurrentTime}) == nil`; `none` is the empty string, for which crypto/x509 skips host-name verification -/
+structure EnvN where
+  recMatches : Rec → Cert → Bool
+  isCA : Cert → Bool
+  chainVerifyAt : Option Name → List Cert → List Cert → Cert → Bool
+
+/-- the primitives `verifyDANE` works with on a connection whose state reports server name `name` -/
+def EnvN.forName (EN : EnvN) (name : Option Name) : Env :=
+  ⟨EN.recMatches, EN.isCA, EN.chainVerifyAt name⟩
+
+/-- the two fields of `tls.Config` that `connect` writes -/
+structure TlsCfg where
+  /-- `ServerName`; `none` = "" -/
+  serverName : Option Name
+  /-- `InsecureSkipVerify` -/
+  insecure : Bool
+deriving DecidableEq, Repr
+
+/-- outcome of `conn.Client().Hello(...)` after `StartTLS` (the deferred TLS handshake + EHLO) -/
+inductive Hello where
+  | ok
+  /-- `isVerifyError(err)`: a `*tls.CertificateVerificationError` -/
+  | verifyErr
+  | otherErr
+deriving DecidableEq, Repr
+
+/-- what the peer (and the network) does on one connection attempt -/
+structure Attempt where
+  /-- `conn.Connect(...)` succeeds (dial, greeting, EHLO) -/
+  connectOk : Bool
+  /-- the EHLO reply lists STARTTLS -/
+  starttls : Bool
+  /-- the STARTTLS command is accepted -/
+  starttlsCmdOk : Bool
+  /-- the handshake under the configuration the client uses: ANY function of it -/
+  hello : TlsCfg → Hello
+  /-- the certificates presented in a completed handshake -/
+  chain : List Cert
+
+/-- `module.TLSLevel` -/
+inductive TLSLevel where
+  | none
+  | encrypted
+  | authenticated
+deriving DecidableEq, Repr
+
+/-- `tls.ConnectionState` of the connection `connect` leaves, as far as `verifyDANE` reads it -/
+structure ConnState where
+  hs : Bool
+  /-- `ServerName`: the name the CLIENT configured for the handshake (`none` = "") -/
+  serverName : Option Name
+  chain : List Cert
+deriving DecidableEq, Repr
+
+/-- the zero `tls.ConnectionState` of a plaintext connection -/
+def ConnState.plain : ConnState := ⟨false, none, []⟩
+
+inductive ConnectRes where
+  /-- `err != nil`: this MX is given up -/
+  | fail
+  | ok (level : TLSLevel) (st : ConnState)
+deriving DecidableEq, Repr
+
+/-- the `retry:` loop of `connect`. `srv i` = the i-th connection attempt; `cfg` = `tlsCfg`
+(`none` = nil), `level` = `tlsLevel`. `fuel` bounds the recursion; three rounds are all the loop can
+make (`connectLoop_fuel`). -/
+def connectLoop (srv : Nat → Attempt) : Nat → Nat → Option TlsCfg → TLSLevel → ConnectRes
+  | 0, _, _, _ => .fail
+  | fuel + 1, i, cfg, level =>
+    let a := srv i
+    if !a.connectOk then .fail
+    else
+      match cfg with
+      | none => .ok .none .plain                                  -- `tlsLevel = module.TLSNone`
+      | some c =>
+        if !a.starttls then .ok .none .plain
+        else if !a.starttlsCmdOk then .fail                       -- no fall-back
+        else
+          match a.hello c with
+          | .ok => .ok level ⟨true, c.serverName, a.chain⟩
+          | .verifyErr =>
+            if level == .authenticated then
+              -- `tlsCfg.InsecureSkipVerify = true` on the SAME configuration: ServerName stays
+              connectLoop srv fuel (i + 1) (some { c with insecure := true }) .encrypted
+            else connectLoop srv fuel (i + 1) none .none
+          | .otherErr => connectLoop srv fuel (i + 1) none .none
+
+/-- `rd.connect(ctx, conn, host, rd.rt.tlsConfig)`; `base` = `rd.rt.tlsConfig` (`none` = nil):
+`tlsCfg = rd.rt.tlsConfig.Clone(); tlsCfg.ServerName = host` -/
+def connect (host : Name) (base : Option TlsCfg) (srv : Nat → Attempt) : ConnectRes :=
+  connectLoop srv 3 0 (base.map (fun c => { c with serverName := some host })) .authenticated
+
+/-- what `attemptMX` ends in, with DANE as the only policy -/
+inductive MXRes where
+  /-- `connect` failed -/
+  | connErr
+  /-- `CheckConn` returned an error: the connection is closed, the MX not used -/
+  | refused (e : CErr)
+  /-- the connection is kept, with this `tlsLevel` -/
+  | ok (level : TLSLevel)
+  | panic
+deriving DecidableEq, Repr
+
+/-- the part of `attemptMX` after `connect`: `CheckConn` on `conn.Client().TLSConnectionState()` (its
+primitives `E` are those for the server name the state reports), then
+`if policyLevel > tlsLevel { tlsLevel = policyLevel }` -/
+def policyStep (E : Env) (haveResolver : Bool) (fut : Except DiscErr (List Rec)) (level : TLSLevel)
+    (st : ConnState) : MXRes :=
+  match checkConn E haveResolver fut st.hs st.chain with
+  | .panic => .panic
+  | .ret _ (some e) => .refused e
+  | .ret .authenticated none => .ok .authenticated
+  | .ret .none none => .ok level
+
+/-- the DANE part of `attemptMX(ctx, conn, record)` for `record.Host = host`: `PrepareConn` (its result
+is `fut`), `connect`, `CheckConn`, level update. `verifyDANE` reads the reference identifier of its
+X.509 query from the connection state. -/
+def attemptMX (EN : EnvN) (host : Name) (base : Option TlsCfg) (srv : Nat → Attempt)
+    (haveResolver : Bool) (fut : Except DiscErr (List Rec)) : MXRes :=
+  match connect host base srv with
+  | .fail => .connErr
+  | .ok level st => policyStep (EN.forName st.serverName) haveResolver fut level st
 
 end MaddyVerif.Dane
